@@ -45,6 +45,9 @@ CASES = {
     'ortho-ab': ('ortho-ab', 0, (0.9, 1.2), (0.0, 1.1), False),
     'tric-abc': ('tric-abc', 0, (0.5, 0.95), (0.0, 0.6), True),
     'dimer-chain': ('dimer-chain', 0, (0.15, 1.45), (0.0, 0.5), False),
+    'hcpoct-list-reuse': ('hcpoct', 1, (0.4, 1.1), (0.0, 0.55), True, 0),
+    'tric-abc-reuse': ('tric-abc', 0, (0.5, 0.95), (0.0, 0.6), True, 1),
+    'tetra-ab-reuse': ('tetra-ab', 0, (0.6, 1.3), (0.0, 0.7), True, 1),
     'oblique-far2': ('oblique-far2', 0, (0.6, 1.55), None, False),
 }
 
@@ -83,7 +86,9 @@ def obstruction_d2(crys, chem, i, dx, rmax, box=5):
 
 
 def network(case):
-    cname, chem, (clo, chi), cd, aslist = CASES[case]
+    cname, chem, (clo, chi), cd, aslist = CASES[case][:5]
+    # optional: species for which the network is generated FIRST with the very same list object (call history)
+    first_chem = CASES[case][5] if len(CASES[case]) > 5 else None
 
     def fn(src=None):
         src = src or Src()
@@ -112,6 +117,8 @@ def network(case):
         if closest is not None and aslist:
             arg = [closest if c != chem else 0.0 for c in range(crys.Nchem)]
         with shim.symbolic_mode():
+            if first_chem is not None:
+                crys.jumpnetwork(first_chem, cutoff, arg)      # same list object, another species: must not influence the next call
             jn = crys.jumpnetwork(chem, cutoff) if closest is None else crys.jumpnetwork(chem, cutoff, arg)
             jl = crys.jumpnetwork2lattice(chem, jn)
         if sym:
@@ -170,8 +177,8 @@ def network(case):
     return fn
 
 
-QUICK = ['hcp', 'square', 'b2', 'hcpoct', 'tetra-ab', 'rect-ab', 'ortho-ab', 'dimer-chain', 'oblique-far2']
-THOROUGH = QUICK + ['hcpoct-list', 'rumpled', 'l12', 'skew2', 'fccint', 'tric-abc']
+QUICK = ['hcp', 'square', 'b2', 'hcpoct', 'tetra-ab', 'rect-ab', 'ortho-ab', 'dimer-chain', 'oblique-far2', 'hcpoct-list-reuse', 'tetra-ab-reuse']
+THOROUGH = QUICK + ['hcpoct-list', 'rumpled', 'l12', 'skew2', 'fccint', 'tric-abc', 'tric-abc-reuse']
 
 
 def sections(tier):
